@@ -227,4 +227,29 @@ def run(facts, rep, tier, ctx):
     # R10.4 / R10.7 shared with C09
     c09.listing_rules(facts, rep, ws, rule="R10.4")
     c09.table_u(facts, rep, ws, rule="R10.7", only=("remove_dir",))
+    # R10.8 removing a subtree goes through the path layer's remove_dir_all: children must be dispatched by their own type
+    # (remove_file on a lower-only directory would hide it with one marker and leave its content to resurface), the
+    # directory itself goes last
+    from ..pathrules import PathRules
+    from ..report import Report
+    wa = World(facts, True)
+    rep.ob("R10.A", "async_vfs", "async world present", wa.present(), "", "")
+    for w_, tag in ((ws, ""), (wa, "A/")):
+        if not w_.present():
+            continue
+        scratch = Report("x")
+        PathRules(facts, w_).table_p(scratch, "P")
+        k = 0
+        for o in scratch.obligations:
+            d = o["key"].split("|")[2]
+            if d.startswith("remove_dir_all"):
+                k += 1
+                rep.ob(tag + "R10.8", o["fn"], d, o["ok"], o["detail"], o["loc"])
+        rep.floor("remove_dir_all obligations (%s)" % w_.tag, k, 4)
+    if wa.present():
+        A = _Prefixed(rep, "A")
+        k = marker_rules(facts, A, wa)
+        k += c09.listing_rules(facts, A, wa, rule="R10.4")
+        k += c09.table_u(facts, A, wa, rule="R10.7", only=("remove_dir",))
+        rep.floor("async overlay marker obligations", k, 30)
     rep.assume("the reserved names ('.whiteout', '*_wo') are not used by callers (excluded by the property)")
